@@ -50,5 +50,5 @@ def identity_histories(r, thorough):
 
 
 def run(tier, replay=None):
-    return srvprops.run(PROP, THEOREMS, tier, replay, extra_gen=lambda r, th: identity_histories(r, th) + sl.stalled_drop_histories(r, th),
-                        rule_note="plus identity histories: IDENTIFY with usernames over Unicode whitespace / alphanumeric / punctuation / emoji / zero-width code points, padding, lengths around 256 bytes, name re-use after hang-up, and after a connection that ended through the write-error path (stalled peer vanishing)")
+    return srvprops.run(PROP, THEOREMS, tier, replay, extra_gen=lambda r, th: identity_histories(r, th) + sl.stalled_drop_histories(r, th) + sl.retry_identify_histories(r, th),
+                        rule_note="plus retried-IDENTIFY histories (refused under a name in use, then identified under a free name: the acknowledged identity is the new one); plus identity histories: IDENTIFY with usernames over Unicode whitespace / alphanumeric / punctuation / emoji / zero-width code points, padding, lengths around 256 bytes, name re-use after hang-up, and after a connection that ended through the write-error path (stalled peer vanishing)")
